@@ -79,7 +79,9 @@ META = {
         "an instance attribute or a module constant; plain or sandboxed) has no autoescape/finalize; removing exactly a leading "
         "byte order mark is not a change of the text, and the included file's text must pass such a removal (or be read as "
         "utf-8-sig), as docutils' input layer does for the document itself; every statement that takes a ':'-line off the front of "
-        "the content into the option block is guarded by a test on that line which excludes a line opening a ':::' fence. "
+        "the content into the option block is guarded by a test on that line which excludes a line opening a ':::' fence "
+        "(startswith tests, a predicate helper, or a regex - literal, local or module constant - read through re._parser: a colon "
+        "after optional blanks followed by a negative lookahead for more colons). "
         "R7 rule lookups: a test '<rule>' in md.get_active_rules()[<chain>] names a rule that markdown-it or a configured plugin "
         "registers on that chain (catalogue read from the library sources); a rule looked up in the wrong chain is a constant test. "
         "R8 input limits: a per-line limit that the docutils front end checks on the document text (settings.line_length_limit) "
@@ -2323,11 +2325,90 @@ def _colon_prefix_test(t: ast.AST) -> str | None:
         v = t.args[0].value
         if v and set(v) == {":"} and len(v) <= 3:
             return v
-    if isinstance(t, ast.Call) and isinstance(t.func, ast.Attribute) and t.func.attr in ("match", "fullmatch", "search"):
-        for a in t.args:
-            if isinstance(a, ast.Constant) and isinstance(a.value, str) and ":(?!::)" in a.value:
-                return ":(?!::)"
+    if isinstance(t, ast.Call) and isinstance(t.func, ast.Attribute) and t.func.attr in ("match", "fullmatch"):
+        pat = _regex_pattern_of(t)
+        kinds = _regex_colon_kinds(pat) if pat is not None else set()
+        if kinds >= {":", "excl"}:
+            return ":(?!::)"
+        if ":" in kinds:
+            return ":"  # demands the colon but does not exclude a ':::' fence opener
     return None
+
+
+def _regex_pattern_of(call: ast.Call) -> str | None:
+    """The pattern text of ``re.match(PAT, s)`` / ``R.match(s)`` with ``R = re.compile(PAT)`` (a module constant of this
+    or another package module, or a local), PAT a literal or a constant."""
+    fi = None
+    for a in ancestors(call):
+        if hasattr(a, "_fi"):
+            fi = a._fi
+            break
+    mod = getattr(call, "_mod", None)
+
+    def const_str(e: ast.AST, depth: int = 0) -> str | None:
+        if isinstance(e, ast.Constant) and isinstance(e.value, str):
+            return e.value
+        if isinstance(e, ast.Name) and depth < 3:
+            if fi is not None and e.id not in fi.params:
+                defs = _local_defs(fi, e.id)
+                if len(defs) == 1:
+                    return const_str(defs[0][1], depth + 1)
+                if defs:
+                    return None
+            cv = _module_const(fi, e.id, _CORPUS) if fi is not None and _CORPUS is not None else (mod.const_nodes.get(e.id) if mod is not None else None)
+            if cv is not None:
+                return const_str(cv, depth + 1)
+        if isinstance(e, ast.Call) and (dotted(e.func) or "").split(".")[-1] == "compile" and e.args:
+            return const_str(e.args[0], depth + 1)
+        return None
+
+    recv = call.func.value
+    if (dotted(recv) or "") == "re" or (dotted(recv) or "").endswith(".re"):
+        return const_str(call.args[0]) if call.args else None
+    return const_str(recv)
+
+
+def _regex_colon_kinds(pattern: str) -> set[str]:
+    """What a regex matched at the start of a line demands of it: {':'} if, after optional blanks, a colon is required;
+    plus 'excl' if a negative lookahead right after that colon forbids two more colons (a ':::' fence opener)."""
+    import re._parser as sre  # type: ignore[import-not-found]
+
+    try:
+        items = list(sre.parse(pattern))
+    except Exception:
+        return set()
+    i = 0
+    BLANK = {ord(" "), ord("\t")}
+
+    def only_blanks(av) -> bool:
+        sub = list(av)
+        for op, arg in sub:
+            if str(op) == "LITERAL" and arg in BLANK:
+                continue
+            if str(op) == "IN" and all((str(o2) == "LITERAL" and a2 in BLANK) for o2, a2 in arg):
+                continue
+            return False
+        return True
+
+    while i < len(items):
+        op, av = items[i]
+        if str(op) == "AT":
+            i += 1
+            continue
+        if str(op) in ("MAX_REPEAT", "MIN_REPEAT", "POSSESSIVE_REPEAT") and only_blanks(av[2]):
+            i += 1
+            continue
+        break
+    out: set[str] = set()
+    if i < len(items) and str(items[i][0]) == "LITERAL" and items[i][1] == ord(":"):
+        out.add(":")
+        if i + 1 < len(items) and str(items[i + 1][0]) == "ASSERT_NOT" and items[i + 1][1][0] == 1:
+            sub = list(items[i + 1][1][1])
+            if len(sub) >= 2 and all(str(o) == "LITERAL" and a == ord(":") for o, a in sub[:2]):
+                out.add("excl")
+            elif len(sub) == 1 and str(sub[0][0]) == "LITERAL" and sub[0][1] == ord(":"):
+                out.add("excl")  # (?!:) forbids '::' and therefore ':::'
+    return out
 
 
 def _strips_bom(n: ast.AST) -> bool:
@@ -2435,7 +2516,8 @@ def _text_conserved(rep: Report, fi: FunctionInfo, seeds: set[str], sinks: list[
         else:
             continue
         kind, names = _destination(n, sinks)
-        if kind == "sink" or (kind == "names" and names & need) or (kind == "return" and any(isinstance(parent(s), ast.Return) or any(isinstance(x, ast.Return) for x in ancestors(s)) for s in sinks)):
+        ret_ = next((a for a in ancestors(n) if isinstance(a, ast.Return)), None)
+        if kind == "sink" or (kind == "names" and names & need) or (kind == "return" and ret_ is not None and any(s_ is ret_.value for s_ in sinks)):
             bad.append(n)
     # helpers the text passes through on its way to the sink
     if depth < 2:
@@ -2551,13 +2633,28 @@ def r6_text_conserved(corpus: Corpus, rep: Report, tier: str):
             if h_ is not None and not h_.is_lambda and h_.module.name == pdo.module.name and _line_splitter(h_) is None:
                 scan_scope.setdefault(h_.fq, h_)
 
-    def prefix_tests(e: ast.AST, f: FunctionInfo, depth: int = 0) -> list[tuple[str, ast.AST]]:
-        """colon-prefix tests inside ``e`` - directly, or inside a package predicate it calls on the line."""
+    def local_values(e: ast.AST, f: FunctionInfo, at) -> list[ast.AST]:
+        """What the locals mentioned in ``e`` are bound to when ``e`` is evaluated at statement ``at``
+        (the reaching definition; every definition when that is not unique)."""
         out_ = []
-        for x in ast.walk(e):
+        for nm in sorted({y.id for y in ast.walk(e) if isinstance(y, ast.Name)}):
+            if nm in f.params:
+                continue
+            r = _reaching_def(f, nm, at) if at is not None else None
+            out_ += [r[1]] if r is not None else [v_ for _, v_ in _local_defs(f, nm)]
+        return out_
+
+    def prefix_tests(e: ast.AST, f: FunctionInfo, depth: int = 0, at=None) -> list[tuple[str, ast.AST]]:
+        """colon-prefix tests inside ``e`` - directly, in what its locals are bound to, or inside a package predicate
+        it calls on the line."""
+        out_ = []
+        exprs = [e] + (local_values(e, f, at) if depth == 0 else [])
+        for x in (y for e_ in exprs for y in ast.walk(e_)):
             v = _colon_prefix_test(x)
             if v is not None:
                 out_.append((v, x))
+                if v == ":(?!::)":
+                    out_.append((":", x))  # the same match also demands the colon
             elif isinstance(x, ast.Call) and depth < 2:
                 h2 = _package_callee(x, f)
                 if h2 is not None and not h2.is_lambda and h2.fq != f.fq:
@@ -2574,33 +2671,35 @@ def r6_text_conserved(corpus: Corpus, rep: Report, tier: str):
         if not line_lists:
             continue
 
-        def about_line(t: ast.AST, f_=f_, line_lists=line_lists) -> bool:
+        cfg_t = get_cfg(f_)
+
+        def about_line(t: ast.AST, at=None, f_=f_, line_lists=line_lists) -> bool:
             # the test looks at a line of the list (an element, a loop/comprehension variable over it, a local bound from
             # one), not at the content as a whole
             for x in ast.walk(t):
-                if isinstance(x, ast.Name):
-                    if _names_in(x) & line_lists:
-                        return True
-                    if x.id not in f_.params and _local_defs(f_, x.id) and all(_names_in(v) & line_lists for _, v in _local_defs(f_, x.id)):
-                        return True
-            return False
+                if isinstance(x, ast.Name) and _names_in(x) & line_lists:
+                    return True
+            vals = local_values(t, f_, at)
+            return bool(vals) and all(_names_in(v) & line_lists for v in vals)
 
-        tests: list[ast.AST] = []
+        tests: list[tuple[ast.AST, object]] = []
         for n in f_.local_nodes():
-            if isinstance(n, (ast.If, ast.While, ast.IfExp)):
-                tests.append(n.test)
+            if isinstance(n, (ast.If, ast.While)):
+                tests.append((n.test, n))
+            elif isinstance(n, ast.IfExp):
+                tests.append((n.test, cfg_t.stmt_of(n)))
             elif isinstance(n, ast.comprehension):
-                tests += n.ifs
-        for t in tests:
-            if not about_line(t):
+                tests += [(i_, cfg_t.stmt_of(i_)) for i_ in n.ifs]
+        for t, at in tests:
+            if not about_line(t, at):
                 continue
-            pts = prefix_tests(t, f_)
+            pts = prefix_tests(t, f_, at=at)
             if not any(v == ":" for v, _ in pts):
                 continue
             n_take += 1
             k = f"{pdo.fq}|option-line consumption stops at a line opening a ':::' fence"
             # an exclusion written directly in this test must itself look at the line; one inside the predicate helper does
-            excl = [x for v, x in pts if v in ("::", ":::", ":(?!::)") and (about_line(x) or not any(x is y for y in ast.walk(t)))]
+            excl = [x for v, x in pts if v in ("::", ":::", ":(?!::)") and (about_line(x, at) or not any(x is y for y in ast.walk(t)))]
             if excl:
                 rep.ok("C06.R6", k, f_.module.site(t), f"`{short(t, 50)}` also tests {short(excl[0], 40)}")
             else:
@@ -3240,6 +3339,8 @@ def mutants(corpus: Corpus):
         fence_t = next(v for v in loop_if.test.values if _colon_prefix_test(v) == ":::")
         add("c06-option-loop-excludes-four-colons-only", "C06.R6", dm, fence_t.args[0], '"::::"', "option-line consumption stops")
         add("c06-option-loop-tests-whole-content-for-fence", "C06.R6", dm, fence_t, f'{_pos_params(pdo)[0]}.startswith(":::")', "option-line consumption stops")
+        subj = _seg(dm, fence_t.func.value)
+        add("c06-option-loop-regex-without-fence-lookahead", "C06.R6", dm, loop_if.test, f'not re.match(r"[ \\t]*:", {subj})', "option-line consumption stops")
     else:
         out.append(("c06-option-loop-takes-fence-opener", "the loop test excluding ':::' lines was not found"))
 
